@@ -6,6 +6,7 @@ from .. import core, gen
 from .c03 import _bc_arg, _rand_elem
 
 ID = 'C13'
+FOUNDATIONS = ['harness.foundation.cscalar']   # ties of the C++ helper functions the model rests on (generated from their text)
 LEVEL = 'proof'
 RULE = ('corpus; structured random (array, label-map) pairs of 1-3 D: labeled_sum/max/min over 9 integer dtypes '
         '(boundary-dense values, both signs) and float32/float64 (dyadic values k/8 of both signs, all-negative regions), '
@@ -14,6 +15,17 @@ RULE = ('corpus; structured random (array, label-map) pairs of 1-3 D: labeled_su
         'is_same_labeling (permuted / merged / background-changed / unrelated pairs), remove_regions, remove_bordering '
         '(rsize int/tuple, 0 and larger than the image, out variants), filter_labeled; borders x 6 modes x '
         'cross/box/arbitrary elements (incl. larger than the image), border(i,j), bwperim n=4/8. '
+        'Round 4: bbox/croptobbox with border (None, 0, positive up to beyond the image, negative) and as_slice, '
+        'labeled.bbox(as_slice), labeled_sum result length with minlength, labeled_size on bool / 64-bit labels beyond 2^32, '
+        'fullhistogram on all 11 dtypes (signed and float must be refused), is_same_labeling on unequal shapes (same pixels '
+        'reshaped, transposed extents, one map shorter/longer), remove_regions_where (tables shorter/longer than the label '
+        'range, bool and int tables), labeled.perimeter (2-D blobs, strokes, isolated pixels; n=4/8; 6 modes; 7 layouts). '
+        'Size-threshold stream (quick: 10 per run - one per kind -, thorough: 30; center_of_mass sums exceed 2^24 through the values): element counts, per-label '
+        'pixel counts, label values and numbers of labels crossing 2^8 / 2^15 / 2^16 (+-1) for labeled_size, fullhistogram, '
+        'labeled_sum/max/min (judged by the Lean driver) and for relabel, is_same_labeling, remove_regions, bbox, labeled.bbox, '
+        'center_of_mass (their Lean models are quadratic: the large cases are judged by an exact O(N) Python oracle, which is '
+        'compared with the Lean specification on every small case of these six kinds in every run). '
+
         'Non-trivial = the label map has at least two distinct values; distinct = distinct protocol line + layout.')
 ASSUMPTIONS = ['no NaN data (an order is taken by labeled_max/min)',
                'labeled_sum is compared with the exact sum only when that sum is representable in the array dtype '
@@ -28,7 +40,16 @@ ASSUMPTIONS = ['no NaN data (an order is taken by labeled_max/min)',
                'fullhistogram: unsigned/bool images with max < 2^12 (one bin per value)',
                'remove_bordering: rsize >= 0', 'filter_labeled: min_size/max_size None or >= 1',
                'border(i, j): i != j, both representable in the label dtype',
-               'center_of_mass: |values| < 2^53 (the kernel converts to double)']
+               'center_of_mass: |values| <= 2^40 are generated so that every accumulation is an exact double (the kernel converts '
+               'each value to double: for |values| >= 2^53 only the rounded computation is defined, outside the statement)',
+               'label values are representable in a C int where the wrapper converts the map to intc (relabel, is_same_labeling, '
+               'remove_regions[_where], labeled_sum/max/min, filter_labeled: numpy wraps larger values silently); labeled_size '
+               'reduces labels modulo 2^32 (modelled; compared with the plain counts only for labels < 2^32)',
+               'bbox/croptobbox with border: the crop is compared with the specification (box grown by border, clipped) for '
+               'border >= 0 and an image with a non-zero pixel; negative borders and the all-zero image with the model only',
+               'labeled.perimeter: 2-D non-empty images; the returned double is compared with n1 + n2*sqrt(2) + n3*(1+sqrt(2))/2 '
+               'to 1e-6 relative (integer counts, weights at least 0.2 apart: no near-tie possible)',
+               'fullhistogram on signed/float dtypes: only "an exception is raised" is compared (model: histAccepts)']
 TRUSTED = ['numpy (array construction, layout views)']
 
 FLOATS = ['float32', 'float64']
@@ -58,12 +79,28 @@ def _bools(s):
 
 def _line(c):
     fn = c['fn']
+    if c.get('big'):        # judged by the Python oracle: the driver is not asked (its models of these kinds are quadratic)
+        return 'c13 kind=histok dt=u8'
     sh = f"shape={gen.enc_shape(c['shape'])}"
     if fn == 'fold':
+        ml = c.get('minlength')
         return (f"c13 kind=fold op={c['op']} dt={_dtn(c['dtype'])} scale={SCALE} n={c['n']} "
+                f"minlength={'-' if ml is None else ml} "
                 f"data={gen.enc_arr(c['data'])} labels={gen.enc_arr(c['labels'])}")
-    if fn in ('size', 'hist'):
+    if fn == 'size':
+        return f"c13 kind=size data={gen.enc_arr(c['data'])}"
+    if fn == 'hist':
+        if not _hist_accepts(c['dtype']):
+            return f"c13 kind=histok dt={_dtn(c['dtype'])}"
         return f"c13 kind=hist dt={_dtn(c['dtype'])} data={gen.enc_arr(c['data'])}"
+    if fn == 'bboxb':
+        return (f"c13 kind=bboxb {sh} data={gen.enc_arr(c['bits'])} border={c['border'] or 0} fast={c['fast']}")
+    if fn == 'rmwhere':
+        return f"c13 kind=rmwhere labels={gen.enc_arr(c['labels'])} conds={gen.enc_arr(c['conds'])}"
+    if fn == 'perimeter':
+        _, bshape, el = _bc_arg(c)
+        return (f"c13 kind=perimeter {sh} labels={gen.enc_arr(c['bits'])} bshape={gen.enc_shape(bshape)} "
+                f"bc={gen.enc_arr(el)} mode={c['mode']}")
     if fn == 'bbox':
         return f"c13 kind=bbox {sh} data={gen.enc_arr(c['bits'])}"
     if fn == 'bboxl':
@@ -74,6 +111,9 @@ def _line(c):
     if fn == 'relabel':
         return f"c13 kind=relabel labels={gen.enc_arr(c['labels'])}"
     if fn == 'same':
+        if 'shape2' in c:
+            return (f"c13 kind=same2 {sh} shape2={gen.enc_shape(c['shape2'])} labels={gen.enc_arr(c['labels'])} "
+                    f"labels2={gen.enc_arr(c['labels2'])}")
         return f"c13 kind=same labels={gen.enc_arr(c['labels'])} labels2={gen.enc_arr(c['labels2'])}"
     if fn == 'remove':
         return f"c13 kind=remove labels={gen.enc_arr(c['labels'])} regions={gen.enc_arr(c['regions'])}"
@@ -91,6 +131,14 @@ def _line(c):
         return (f"c13 kind={fn} {sh} labels={gen.enc_arr(lab)} bshape={gen.enc_shape(bshape)} "
                 f"bc={gen.enc_arr(el)}{extra}")
     raise ValueError(fn)
+
+
+def _hist_accepts(dtype):
+    """what the harness expects of the dtype; the driver's `histAccepts` is compared with the behaviour"""
+    return dtype == 'bool' or dtype in UINT
+
+
+SQRT2 = float(np.sqrt(2))
 
 
 def _diff(key, got, spec, model, mask=None, silent_model=None):
@@ -125,6 +173,8 @@ def _run(c, drv):
         if r.dtype != A.dtype or r.shape != (c['n'],):
             return [dict(kind='property', key=key, detail=dict(why='result type/length', dtype=str(r.dtype),
                                                                shape=r.shape, n=c['n']))]
+        if int(drv['len']) != r.shape[0]:   # the wrapper's `max(labeled.max() + 1, minlength)` as modelled by `foldLen`
+            return [dict(kind='model', key=key + ':length-model', detail=dict(got=r.shape[0], model=drv['len']))]
         cnt = core.ints(drv['cnt'])
         if cls == 'float':
             got = [core.f2bits(x) for x in r.astype(np.float64).tolist()]
@@ -134,24 +184,102 @@ def _run(c, drv):
             got = [0 if g == z else g for g in got]
             spec = [0 if g == z else g for g in spec]
             model = [0 if g == z else g for g in model]
-            mask = None if op == 'sum' else [k > 0 for k in cnt]
+            if op == 'sum':
+                # exactness domain of C13_labeled_sum_rounded_exact_of_abs_sum: the scaled integers of a label sum, in
+                # absolute value, to at most 2^53 (float64) / 2^24 (float32: 24-bit significand); outside it a slot is
+                # compared with the model only
+                bound = 2 ** 53 if c['dtype'] == 'float64' else 2 ** 24
+                tot = [0] * c['n']
+                for v, l in zip(c['data'], c['labels']):
+                    if 0 <= l < c['n']:
+                        tot[l] += abs(v)
+                mask = [t <= bound for t in tot]
+            else:
+                mask = [k > 0 for k in cnt]
             return _diff(key, got, spec, model, mask)
         got = [int(x) for x in r.tolist()]
         spec, model = core.ints(drv['spec']), core.ints(drv['model'])
+        # the comparable slots are the hypotheses of the oracle theorems evaluated by the driver (`ok=`): the exact sum is
+        # representable in the dtype (sum) / the label is non-empty (max, min); cross-checked against the dtype table here
+        mask = _bools(drv['ok'])
         if op == 'sum':
             lo, hi = gen.dt_range(c['dtype'])
-            mask = [lo <= s <= hi for s in spec]
-        else:
-            mask = [k > 0 for k in cnt]
+            if mask != [lo <= s <= hi for s in spec]:
+                raise core.Infra(f'C13: dtype range of the driver and of the harness disagree for {c["dtype"]}')
         return _diff(key, got, spec, model, mask)
     if fn in ('size', 'hist'):
         A = _arr(c['data'], c['dtype'], shape)
-        r = ml.labeled_size(A) if fn == 'size' else mh.fullhistogram(A)
         key = 'labeled_size' if fn == 'size' else 'fullhistogram'
+        if fn == 'hist' and 'accept' in drv:
+            # a dtype outside the documented domain (signed, float): the wrapper/kernel refuses it
+            if _bools(drv['accept']) != [False]:
+                return [dict(kind='model', key='fullhistogram:dtype-model', detail=dict(dtype=c['dtype']))]
+            try:
+                r = mh.fullhistogram(A)
+            except (TypeError, RuntimeError, ValueError):
+                return []
+            return [dict(kind='model', key='fullhistogram:accepts-' + c['dtype'], detail=dict(got=r.tolist()))]
+        r = ml.labeled_size(A) if fn == 'size' else mh.fullhistogram(A)
+        if r.dtype != np.uintc:
+            return [dict(kind='model', key=key + ':dtype', detail=dict(dtype=str(r.dtype)))]
         spec = core.ints(drv['spec'])
-        if fn == 'size' and c['dtype'] == 'bool':
-            return []
-        return _diff(key, [int(x) for x in r.tolist()], spec, core.ints(drv['model']))
+        # labels >= 2^32 are reduced modulo 2^32 by labeled_size (astype(uint32)): only the model describes that
+        wraps = fn == 'size' and any(v >= 2 ** 32 for v in c['data'])
+        got = [int(x) for x in r.tolist()]
+        return _diff(key, got, got if wraps else spec, core.ints(drv['model']))
+    if fn == 'bboxb':
+        A = gen.relayout(_arr(c['data'], c['dtype'], shape), lay)
+        b = c['border']
+        kw = {} if c.get('omit') else dict(border=b)
+        # (1) the property-level observable first: the crop against the proved box grown by `border` and clipped
+        crop = mh.croptobbox(A, **kw)
+        flat = A.ravel(order='C')
+        got = crop.ravel(order='C').tolist()
+        if drv['spec'] != 'none':
+            want = flat[core.ints(drv['spec'])].tolist() if drv['spec'] else []
+            if got != want:
+                return [dict(kind='property', key='croptobbox:border',
+                             detail=dict(got=got, spec=want, shape=crop.shape, border=b))]
+            if int(np.count_nonzero(crop)) != int(np.count_nonzero(A)):
+                return [dict(kind='property', key='croptobbox:border', detail=dict(why='lost a non-zero pixel'))]
+        # (2) the model of the wrapper's arithmetic (upper end not clipped, negative borders, slice objects)
+        r = [int(x) for x in mh.bbox(A, **kw).tolist()]
+        box = core.ints(drv['box'])
+        if r != box:
+            return [dict(kind='model', key='bbox:border-model', detail=dict(got=r, model=box))]
+        sl = mh.bbox(A, as_slice=True, **kw)
+        if [(int(x.start), int(x.stop)) for x in sl] != [(box[2 * j], box[2 * j + 1]) for j in range(A.ndim)]:
+            return [dict(kind='model', key='bbox:as_slice-model', detail=dict(got=str(sl), model=box))]
+        bounds = core.ints(drv['slices'])
+        if [x.indices(n)[:2] for x, n in zip(sl, A.shape)] != [(bounds[2 * j], bounds[2 * j + 1]) for j in range(A.ndim)]:
+            return [dict(kind='model', key='bbox:slice-bounds-model', detail=dict(got=str(sl), model=bounds))]
+        cidx = core.ints(drv['cidx'])
+        if list(crop.shape) != core.ints(drv['cshape']) or got != (flat[cidx].tolist() if cidx else []):
+            return [dict(kind='model', key='croptobbox:border-model',
+                         detail=dict(got=got, shape=crop.shape, cshape=drv['cshape'], cidx=cidx))]
+        return []
+    if fn == 'rmwhere':
+        L = np.array(c['labels'], dtype=np.intc).reshape(shape)
+        keep = L.copy()
+        conds = np.array(c['conds'], dtype=bool) if c.get('cbool', True) else list(c['conds'])
+        r = ml.remove_regions_where(L, conds, inplace=bool(c.get('inplace')))
+        f = []
+        if not c.get('inplace') and not np.array_equal(L, keep):
+            f.append(dict(kind='property', key='remove_regions_where:input-modified', detail={}))
+        return f + _diff('remove_regions_where', [int(x) for x in _flat(r)], core.ints(drv['spec']),
+                         core.ints(drv['model']))
+    if fn == 'perimeter':
+        A = gen.relayout(_arr(c['data'], c['dtype'], shape), lay)
+        r = float(ml.perimeter(A, c['bc'], c['mode']))
+        spec, model = core.ints(drv['spec']), core.ints(drv['model'])
+        val = lambda n: n[0] + n[1] * SQRT2 + n[2] * (1 + SQRT2) / 2
+        key = 'perimeter:' + c['mode']
+        # the three counts are integers and the weights differ by more than 0.2: a tolerance of 1e-6 decides
+        if abs(r - val(spec)) > 1e-6 * max(1.0, abs(r)):
+            return [dict(kind='property', key=key, detail=dict(got=r, spec=spec, value=val(spec)))]
+        if abs(r - val(model)) > 1e-6 * max(1.0, abs(r)):
+            return [dict(kind='model', key=key + '-model', detail=dict(got=r, model=model))]
+        return []
     if fn == 'bbox':
         A = gen.relayout(_arr(c['data'], c['dtype'], shape), lay)
         fast = A.ndim == 2 and A.flags.c_contiguous and A.flags.aligned
@@ -178,8 +306,15 @@ def _run(c, drv):
             return [dict(kind='property', key='labeled.bbox', detail=dict(why='shape', got=r.shape))]
         present = set(c['labels'])
         mask = [(i // (2 * nd)) in present for i in range(r.size)]
-        return _diff('labeled.bbox', [int(x) for x in r.ravel().tolist()], core.ints(drv['spec']),
-                     core.ints(drv['model']), mask)
+        f = _diff('labeled.bbox', [int(x) for x in r.ravel().tolist()], core.ints(drv['spec']),
+                  core.ints(drv['model']), mask)
+        if not f:
+            # as_slice=True: one tuple of slices per label, built from the rows just compared
+            sl = ml.bbox(L, as_slice=True)
+            want = [[(int(row[2 * j]), int(row[2 * j + 1])) for j in range(nd)] for row in r]
+            if [[(int(x.start), int(x.stop)) for x in t] for t in sl] != want:
+                f.append(dict(kind='model', key='labeled.bbox:as_slice-model', detail=dict(got=str(sl)[:300])))
+        return f
     if fn == 'com':
         A = gen.relayout(_arr(c['data'], c['dtype'], shape), lay)
         L = None if c['labels'] is None else gen.relayout(
@@ -213,7 +348,7 @@ def _run(c, drv):
                          core.ints(drv['model']) + [int(drv['nmodel'])])
     if fn == 'same':
         a = np.array(c['labels'], dtype=c.get('ldtype', 'int32')).reshape(shape)
-        b = np.array(c['labels2'], dtype=c.get('ldtype2', 'int32')).reshape(shape)
+        b = np.array(c['labels2'], dtype=c.get('ldtype2', 'int32')).reshape(c.get('shape2', shape))
         r = bool(ml.is_same_labeling(a, b))
         return _diff('is_same_labeling', [r], _bools(drv['spec']), _bools(drv['model']))
     if fn == 'remove':
@@ -272,6 +407,143 @@ def _run(c, drv):
     raise ValueError(fn)
 
 
+# ---------------------------------------------------------------------------------------------- size-threshold stream
+# Cases whose element count / per-label pixel count / number of labels crosses 2^8, 2^15, 2^16: a counter, index or
+# accumulator narrowed to 16 bits (or to float) passes every small case. labeled_size / fullhistogram / labeled_sum are
+# judged by the Lean driver as usual (those models are linear). The models of relabel, is_same_labeling, remove_regions,
+# bbox, labeled.bbox and center_of_mass index lists / association lists (quadratic), so their large cases (`big`) are
+# judged by the exact O(N) Python oracle below — and on EVERY small case of these six kinds the oracle is compared with
+# the Lean specification the driver prints (a disagreement is an infrastructure error, not a finding).
+
+ORACLE_FNS = ('relabel', 'same', 'remove', 'bbox', 'bboxl', 'com')
+
+
+def _oracle(c):
+    fn, shape = c['fn'], c['shape']
+    if fn == 'relabel':
+        m, out = {0: 0}, []
+        for v in c['labels']:
+            if v not in m:
+                m[v] = len(m)
+            out.append(m[v])
+        return out + [len(m) - 1]
+    if fn == 'same':
+        if list(c.get('shape2', shape)) != list(shape):
+            return [False]
+        f, g = {0: 0}, {0: 0}
+        for a, b in zip(c['labels'], c['labels2']):
+            if f.setdefault(a, b) != b or g.setdefault(b, a) != a:
+                return [False]
+        return [True]
+    if fn == 'remove':
+        rs = set(c['regions'])
+        return [0 if v in rs else v for v in c['labels']]
+    if fn == 'bbox':
+        B = np.array(c['bits'], dtype=np.uint8).reshape(shape)
+        nz = np.nonzero(B)
+        if B.size == 0 or len(nz[0]) == 0:
+            return None
+        out = []
+        for ax in nz:
+            out += [int(ax.min()), int(ax.max()) + 1]
+        return out
+    if fn == 'bboxl':
+        L = np.array(c['labels'], dtype=np.int64).reshape(shape)
+        n, nd, flat = int(L.max()) + 1, L.ndim, L.ravel()
+        rows = np.zeros((n, 2 * nd), np.int64)
+        idx = np.indices(shape)
+        for j in range(nd):
+            cj = idx[j].ravel()
+            lo, hi = np.full(n, shape[j], np.int64), np.zeros(n, np.int64)
+            np.minimum.at(lo, flat, cj)
+            np.maximum.at(hi, flat, cj + 1)
+            rows[:, 2 * j], rows[:, 2 * j + 1] = lo, hi
+        rows[np.bincount(flat, minlength=n) == 0] = 0
+        return [int(x) for x in rows.ravel().tolist()]
+    if fn == 'com':
+        K = np.array(c['data'], dtype=np.int64).reshape(shape)
+        L = (np.zeros(shape, np.int64) if c['labels'] is None else np.array(c['labels'], dtype=np.int64).reshape(shape))
+        n, nd, flat = int(L.max()) + 1 if L.size else 1, K.ndim, L.ravel()
+        den = np.zeros(n, np.int64)
+        np.add.at(den, flat, K.ravel())
+        idx = np.indices(shape)
+        out = [[None] * nd for _ in range(n)]
+        for j in range(nd):
+            num = np.zeros(n, np.int64)
+            np.add.at(num, flat, K.ravel() * idx[j].ravel())
+            for l in range(n):
+                out[l][j] = (int(num[l]), int(den[l]))
+        return [x for row in out for x in row]
+    raise ValueError(fn)
+
+
+def _com_bits(pairs):
+    """correctly rounded quotient of exact integers (Python's int / int), as a bit pattern; None where the total is 0"""
+    return [None if d == 0 else core.f2bits(nm / d) for nm, d in pairs]
+
+
+def _check_oracle(c, drv):
+    """small case of an oracle kind: the Python oracle must agree with the Lean specification"""
+    fn, o = c['fn'], _oracle(c)
+    if fn == 'relabel':
+        spec = core.ints(drv['spec']) + [int(drv['nspec'])]
+    elif fn == 'same':
+        spec = _bools(drv['spec'])
+    elif fn == 'remove':
+        spec = core.ints(drv['spec'])
+    elif fn == 'bbox':
+        spec = None if drv['spec'] == 'none' else core.ints(drv['spec'])
+    elif fn == 'bboxl':
+        spec = core.ints(drv['spec'])
+    else:
+        ok, sp = _bools(drv['ok']), core.ints(drv['spec'])
+        spec = [b if k else None for b, k in zip(sp, ok)]
+        o = _com_bits(o)
+    if o != spec:
+        raise core.Infra(f'C13: the Python oracle of the size-threshold stream disagrees with the Lean specification on {c}')
+
+
+def _run_big(c):
+    """large case of an oracle kind: the real code against the exact Python oracle (property findings, same keys)"""
+    import mahotas as mh
+    import mahotas.labeled as ml
+    fn, shape, lay = c['fn'], c['shape'], c.get('layout', 'C')
+    want = _oracle(c)
+    if fn == 'relabel':
+        r, n = ml.relabel(np.array(c['labels'], dtype=np.intc).reshape(shape))
+        got, key = [int(x) for x in _flat(r)] + [int(n)], 'relabel'
+    elif fn == 'same':
+        a = np.array(c['labels'], dtype=c.get('ldtype', 'int32')).reshape(shape)
+        b = np.array(c['labels2'], dtype=c.get('ldtype2', 'int32')).reshape(c.get('shape2', shape))
+        got, key = [bool(ml.is_same_labeling(a, b))], 'is_same_labeling'
+    elif fn == 'remove':
+        r = ml.remove_regions(np.array(c['labels'], dtype=np.intc).reshape(shape), c['regions'])
+        got, key = [int(x) for x in _flat(r)], 'remove_regions'
+    elif fn == 'bbox':
+        A = gen.relayout(_arr(c['data'], c['dtype'], shape), lay)
+        fast = A.ndim == 2 and A.flags.c_contiguous and A.flags.aligned
+        got, key = [int(x) for x in mh.bbox(A).tolist()], 'bbox:' + ('fast' if fast else 'generic')
+        if want is None:
+            return []
+    elif fn == 'bboxl':
+        L = gen.relayout(np.array(c['labels'], dtype=c['ldtype']).reshape(shape), lay)
+        got, key = [int(x) for x in ml.bbox(L).ravel().tolist()], 'labeled.bbox'
+    else:
+        A = gen.relayout(_arr(c['data'], c['dtype'], shape), lay)
+        L = None if c['labels'] is None else np.array(c['labels'], dtype=c['ldtype']).reshape(shape)
+        r = mh.center_of_mass(A, L)
+        key = 'center_of_mass:' + ('whole' if L is None else 'labels')
+        want = _com_bits(want)
+        got = [core.f2bits(x) for x in r.ravel().tolist()]
+        if len(got) == len(want):
+            got = [g if w is not None else None for g, w in zip(got, want)]
+    if got != want:
+        bad = [i for i, (g, w) in enumerate(zip(got, want)) if g != w][:8]
+        return [dict(kind='property', key=key, detail=dict(why='size-threshold case', entries=bad, n=len(want),
+                                                            got=[got[i] for i in bad], spec=[want[i] for i in bad]))]
+    return []
+
+
 def _prep(c):
     """derive the protocol-only fields"""
     c = dict(c)
@@ -281,10 +553,22 @@ def _prep(c):
         if c.get('minlength') is not None:
             n = max(n, c['minlength'])
         c['n'] = n
-    if fn in ('bbox', 'bwperim'):
+    if fn in ('bbox', 'bwperim', 'bboxb', 'perimeter'):
         A = _arr(c['data'], c['dtype'], c['shape'])
         c['bits'] = [int(v != 0) for v in A.ravel().tolist()]
+    if fn == 'bboxb':
+        V = gen.relayout(A, c.get('layout', 'C'))
+        c['fast'] = int(V.ndim == 2 and bool(V.flags.c_contiguous) and bool(V.flags.aligned))
     return c
+
+
+def _magnitude(c):
+    """tag: integer data of magnitude >= 2^53 / >= 2^63 (not exactly representable in double / beyond int64)"""
+    d = c.get('data')
+    if not d or c.get('dtype') in FLOATS or not isinstance(d, list):
+        return {}
+    m = max(abs(v) for v in d)
+    return {'magnitude': '>=2^63'} if m >= 2 ** 63 else {'magnitude': '>=2^53'} if m >= 2 ** 53 else {}
 
 
 def evaluate(cases):
@@ -295,13 +579,21 @@ def evaluate(cases):
     for c, line, drv in zip(pcs, lines, drvs):
         if 'error' in drv:
             raise core.Infra(f'driver: {drv} for {line}')
-        f = _run(c, drv)
+        if c.get('big'):
+            f = _run_big(c)
+        else:
+            if c['fn'] in ORACLE_FNS and 'spec' in drv:
+                _check_oracle(c, drv)
+            f = _run(c, drv)
         lab = c.get('labels') or c.get('data') or []
-        res.append(dict(findings=f, nontrivial=len(set(lab)) >= 2, sig=line + c.get('layout', 'C'),
+        res.append(dict(findings=f, nontrivial=len(set(lab)) >= 2,
+                        sig=line + c.get('layout', 'C') + str(c.get('thr', '')),
                         tags=dict(fn=c['fn'] + (':' + c['op'] if c['fn'] == 'fold' else ''),
                                   dtype=c.get('dtype', c.get('ldtype', 'int32')), ndim=len(c['shape']),
                                   layout=c.get('layout', 'C'),
-                                  **({'mode': c['mode']} if 'mode' in c else {}))))
+                                  **({'mode': c['mode']} if 'mode' in c else {}),
+                                  **({'size': 'threshold'} if 'thr' in c else {}),
+                                  **_magnitude(c))))
     return res
 
 
@@ -347,6 +639,12 @@ def _values(rng, dtype, n):
         if style < 0.5:
             return [rng.randint(1, 400) for _ in range(n)]
         return [rng.randint(-400, 400) for _ in range(n)]
+    if dtype in ('int64', 'uint64') and rng.random() < 0.2:
+        # neighbours around 2^53 and the 64-bit limits mixed with 0/+-1: a kernel that went through double would merge
+        # 2^53 with 2^53+1 (max/min) and lose the low bits of a sum that must wrap exactly modulo 2^64
+        pool = [2 ** 53, 2 ** 53 + 1, 2 ** 53 + 2, 2 ** 63 - 1, 0, 1]
+        pool += [-2 ** 63, -1, -(2 ** 53) - 1] if dtype == 'int64' else [2 ** 63, 2 ** 63 + 1, 2 ** 64 - 1]
+        return [rng.choice(pool) for _ in range(n)]
     return [int(x) for x in gen.rand_int_array(rng, (n,), dtype).tolist()]
 
 
@@ -372,9 +670,21 @@ def _gen_hist(rng):
     shape = _shape(rng)
     n = int(np.prod(shape))
     if rng.random() < 0.5:
-        return dict(fn='size', dtype=rng.choice(['int32', 'int64', 'uint8', 'uint16', 'int16', 'uint32']), shape=shape,
-                    data=_labels(rng, n, maxlab=rng.choice([1, 3, 9, 40])))
-    dtype = rng.choice(UINT + ['bool'])
+        dtype = rng.choice(['int32', 'int64', 'uint8', 'uint16', 'int16', 'uint32', 'bool', 'uint64', 'int8'])
+        data = _labels(rng, n, maxlab=rng.choice([1, 3, 9, 40, 300, 70000]))
+        if dtype in ('uint8', 'int8'):
+            data = [v % 128 for v in data]
+        elif dtype in ('uint16', 'int16'):
+            data = [v % 32768 for v in data]
+        if dtype == 'bool':
+            data = [int(v != 0) for v in data]
+        elif dtype in ('int64', 'uint64') and rng.random() < 0.25:
+            # labels beyond 2^32: labeled_size reduces them modulo 2^32 (astype(uint32))
+            data = [v + 2 ** 32 * rng.choice([0, 0, 1, 3]) for v in data]
+        return dict(fn='size', dtype=dtype, shape=shape, data=data)
+    dtype = rng.choice(UINT + UINT + ['bool', 'bool'] + SINT + FLOATS)
+    if not _hist_accepts(dtype):
+        return dict(fn='hist', dtype=dtype, shape=shape, data=[rng.randint(0, 9) for _ in range(n)])
     hi = 1 if dtype == 'bool' else rng.choice([1, 3, 17, 255, 300, 4000])
     hi = min(hi, gen.dt_range(dtype)[1])
     return dict(fn='hist', dtype=dtype, shape=shape, data=[rng.randint(0, hi) for _ in range(n)])
@@ -398,6 +708,65 @@ def _gen_bbox(rng):
         else:
             data.append(0)
     return dict(fn='bbox', dtype=dtype, shape=shape, data=data, layout=rng.choice(gen.LAYOUTS))
+
+
+def _gen_bboxb(rng):
+    """bbox(border=, as_slice=) and croptobbox(border=): the Python arithmetic around the kernel"""
+    c = _gen_bbox(rng)
+    c['fn'] = 'bboxb'
+    c['border'] = rng.choice([None, 0, 1, 1, 2, 3, 10, -1, -2])
+    if c['border'] is None and rng.random() < 0.5:
+        c['omit'] = True
+    return c
+
+
+def _blob_bits(rng, shape):
+    """a few rectangles / diagonal strokes / isolated pixels: exercises every class of the perimeter table"""
+    h, w = shape
+    B = np.zeros(shape, int)
+    for _ in range(rng.randint(1, 4)):
+        y0, x0 = rng.randrange(h), rng.randrange(w)
+        style = rng.random()
+        if style < 0.5:
+            B[y0:y0 + rng.randint(1, 5), x0:x0 + rng.randint(1, 5)] = 1
+        elif style < 0.8:
+            dy = rng.choice([1, -1])
+            for t in range(rng.randint(2, 6)):
+                y, x = y0 + dy * t, x0 + t
+                if 0 <= y < h and 0 <= x < w:
+                    B[y, x] = 1
+        else:
+            B[y0, x0] = 1
+    if rng.random() < 0.3:
+        for _ in range(rng.randint(1, 4)):
+            B[rng.randrange(h), rng.randrange(w)] ^= 1
+    return B.ravel().tolist()
+
+
+def _gen_perimeter(rng):
+    shape = list(gen.small_shape(rng, ndim=2, maxlen=rng.choice([4, 7, 11])))
+    n = int(np.prod(shape))
+    dtype = rng.choice(['bool', 'uint8', 'int32', 'float64'])
+    if rng.random() < 0.6:
+        bits = _blob_bits(rng, shape)
+    else:
+        p = rng.choice([0.3, 0.6, 0.85])
+        bits = [int(rng.random() < p) for _ in range(n)]
+    data = [(1 if dtype == 'bool' else rng.choice([1, 2, 7])) if b else 0 for b in bits]
+    return dict(fn='perimeter', shape=shape, dtype=dtype, data=data, bc=rng.choice([4, 8]),
+                mode=rng.choice(MODES + ['constant', 'constant']), layout=rng.choice(gen.LAYOUTS))
+
+
+def _gen_rmwhere(rng):
+    shape = _zero_axis(rng, _shape(rng))
+    n = int(np.prod(shape))
+    labels = _labels(rng, n, nonneg=rng.random() < 0.8)
+    top = max(labels, default=0)
+    k = rng.choice([0, 1, top, top + 1, top + 1, top + 4])
+    p = rng.choice([0.0, 0.3, 0.6, 1.0])
+    conds = [int(rng.random() < p) for _ in range(max(k, 0))]
+    return dict(fn='rmwhere', shape=shape, labels=labels, conds=conds, inplace=rng.random() < 0.3,
+                cbool=rng.random() < 0.7)
 
 
 def _gen_bboxl(rng):
@@ -456,7 +825,7 @@ def _gen_same(rng):
     shape = _zero_axis(rng, _shape(rng))
     n = int(np.prod(shape))
     if n == 0:
-        return dict(fn='same', shape=shape, labels=[], labels2=[], ldtype='int32', ldtype2='int32')
+        return dict(fn='same', shape=shape, labels=[], labels2=[], ldtype='int32', ldtype2='int32', shape2=list(shape))
     a = _labels(rng, n, nonneg=rng.random() < 0.8)
     vals = sorted(set(a))
     style = rng.random()
@@ -485,8 +854,22 @@ def _gen_same(rng):
         b = _labels(rng, n)
     if rng.random() < 0.5:
         a, b = b, a
-    return dict(fn='same', shape=shape, labels=a, labels2=b, ldtype=rng.choice(['int32', 'int64', 'int16']),
-                ldtype2=rng.choice(['int32', 'int64']))
+    c = dict(fn='same', shape=shape, labels=a, labels2=b, ldtype=rng.choice(['int32', 'int64', 'int16']),
+             ldtype2=rng.choice(['int32', 'int64']), shape2=list(shape))
+    r = rng.random()
+    if r < 0.06:            # same pixels in scan order, another shape (flattened / transposed extents)
+        c['shape2'] = [n] if len(shape) > 1 else [1, n]
+        if len(shape) > 1 and rng.random() < 0.5:
+            c['shape2'] = list(reversed(shape))
+    elif r < 0.12 and n >= 2:   # the second map is shorter / longer along the last axis (a prefix agrees)
+        inner = int(np.prod(shape[:-1]))
+        if rng.random() < 0.5 and shape[-1] >= 2:
+            B = np.array(b, dtype=object).reshape(shape)[..., :-1]
+        else:
+            B = np.concatenate([np.array(b, dtype=object).reshape(shape)] * 2, axis=-1)[..., :shape[-1] + 1]
+        c['labels2'] = B.ravel().tolist()
+        c['shape2'] = list(B.shape)
+    return c
 
 
 def _gen_remove(rng):
@@ -562,8 +945,125 @@ def _gen_bwperim(rng):
                 mode=rng.choice(MODES + ['constant']), layout=rng.choice(gen.LAYOUTS))
 
 
-GENS = [(_gen_fold, 5), (_gen_hist, 1), (_gen_bbox, 2), (_gen_bboxl, 1), (_gen_com, 2), (_gen_relabel, 1),
-        (_gen_same, 1.5), (_gen_remove, 1), (_gen_rmborder, 1), (_gen_filter, 1), (_gen_borders, 3), (_gen_bwperim, 1)]
+THR_N = [257, 32769, 65535, 65536, 65537, 65537]
+THR_V = [255, 256, 257, 32767, 32768, 65535, 65536, 65537]
+
+
+def _thr_shape(rng, N=None):
+    N = N or rng.choice(THR_N)
+    if N == 65537 and rng.random() < 0.3:
+        return [257, 256]          # 65792 elements
+    return [1, N] if rng.random() < 0.7 else [N]
+
+
+def _thr_counts(rng, fn):
+    """labeled_size / fullhistogram: one value covering more than 2^16 pixels, or values around the thresholds"""
+    shape = _thr_shape(rng)
+    n = int(np.prod(shape))
+    if rng.random() < 0.5:
+        data = [1] * n
+        data[rng.randrange(n)] = 0
+        dtype = rng.choice(['int32', 'uint32', 'int64', 'uint8'] if fn == 'size' else ['uint32', 'uint64', 'uint8', 'uint16'])
+    else:
+        v = rng.choice(THR_V)
+        data = [rng.choice([0, v, v, v - 1, 3]) for _ in range(rng.choice([7, 300]))]
+        shape = [len(data)]
+        dtype = rng.choice(['int32', 'uint32', 'int64'] if fn == 'size' else ['uint32', 'uint64'])
+    return dict(fn=fn, dtype=dtype, shape=shape, data=data, thr=1)
+
+
+def _thr_fold(rng):
+    shape = _thr_shape(rng)
+    n = int(np.prod(shape))
+    dtype = rng.choice(['int32', 'int64', 'uint16', 'float32', 'float64', 'uint8'])
+    unit = 8 if dtype in FLOATS else 1            # floats: k/8, so 8 is the value 1.0 (every partial sum exact: < 2^24)
+    data = [unit] * n
+    labels = [1] * n
+    for _ in range(3):
+        labels[rng.randrange(n)] = 0
+    if dtype not in ('uint16', 'uint8') and rng.random() < 0.5:
+        data = [unit * rng.choice([1, 1, 2, -1]) for _ in range(n)]
+    return dict(fn='fold', op=rng.choice(['sum', 'sum', 'max', 'min']), dtype=dtype, shape=shape, data=data, labels=labels,
+                ldtype='int32', layout='C', llayout='C', thr=1)
+
+
+def _thr_bbox(rng):
+    shape = _thr_shape(rng)
+    n = int(np.prod(shape))
+    data = [0] * n
+    data[n - 1] = 1
+    data[rng.randrange(n)] = 1
+    return dict(fn='bbox', dtype=rng.choice(['uint8', 'bool', 'int32', 'float64']), shape=shape, data=data,
+                layout=rng.choice(['C', 'C', 'F', 'strided']), big=n > 300, thr=1)
+
+
+def _thr_bboxl(rng):
+    shape = _thr_shape(rng)
+    n = int(np.prod(shape))
+    labels = [1] * n
+    labels[0], labels[n - 1] = 0, 2
+    return dict(fn='bboxl', ldtype=rng.choice(['int32', 'int64', 'uint16']), shape=shape, labels=labels,
+                layout=rng.choice(['C', 'F']), big=n > 300, thr=1)
+
+
+def _thr_com(rng):
+    """more than 2^16 pixels; the value and value*coordinate sums exceed 2^24 by far (a float accumulator is inexact there)
+    while staying exact in double (< 2^53): the witness for a narrowed accumulator needs no 2^24-pixel image"""
+    shape = _thr_shape(rng)
+    n = int(np.prod(shape))
+    dtype = rng.choice(['uint8', 'int32', 'uint16', 'float32', 'float64', 'bool'])
+    unit = 8 if dtype in FLOATS else 1
+    if dtype in ('int32', 'uint16'):
+        data = [rng.choice([1, 32767, 30001, 2]) for _ in range(n)]
+    else:
+        data = [unit * (1 if dtype == 'bool' else rng.choice([1, 1, 2, 3])) for _ in range(n)]
+    labels = None
+    if rng.random() < 0.5:
+        labels = [1] * n
+        labels[0] = 0
+        labels[n // 2] = 2
+    return dict(fn='com', dtype=dtype, shape=shape, data=data, labels=labels, ldtype='int32', layout='C', llayout='C',
+                big=n > 300, thr=1)
+
+
+def _thr_relabel(rng):
+    N = rng.choice(THR_N)
+    labels = list(range(N, 0, -1))              # N distinct labels: more than 2^16 of them for N >= 65536
+    if rng.random() < 0.5:
+        labels[rng.randrange(N)] = 0
+    return dict(fn='relabel', shape=[N], labels=labels, inplace=False, big=N > 300, thr=1)
+
+
+def _thr_same(rng):
+    N = rng.choice(THR_N)
+    a = list(range(1, N + 1))
+    b = [v + 7 for v in a]
+    if rng.random() < 0.5:
+        b[N - 1] = b[0]                          # the last label collides with the first: only the full map tells
+    return dict(fn='same', shape=[N], shape2=[N], labels=a, labels2=b, ldtype='int32', ldtype2='int32', big=N > 300, thr=1)
+
+
+def _thr_remove(rng):
+    N = rng.choice(THR_N)
+    labels = list(range(1, N + 1))
+    rng.shuffle(labels)
+    regions = [v for v in range(1, N + 1) if v % 2 == 0 or v > N - 2]
+    return dict(fn='remove', shape=[N], labels=labels, regions=regions, inplace=False, big=N > 300, thr=1)
+
+
+THR_POOL = [lambda r: _thr_counts(r, 'size'), lambda r: _thr_counts(r, 'hist'), _thr_fold, _thr_fold, _thr_bbox, _thr_bboxl,
+            _thr_com, _thr_relabel, _thr_same, _thr_remove]
+
+
+def _threshold_cases(rng, tier):
+    if tier == 'quick':
+        return [g(rng) for g in THR_POOL]       # one per kind (0.7 s for all ten)
+    return [g(rng) for g in THR_POOL for _ in range(3)]
+
+
+GENS = [(_gen_fold, 5), (_gen_hist, 1.3), (_gen_bbox, 2), (_gen_bboxl, 1), (_gen_com, 2), (_gen_relabel, 1),
+        (_gen_same, 1.5), (_gen_remove, 1), (_gen_rmborder, 1), (_gen_filter, 1), (_gen_borders, 3), (_gen_bwperim, 1),
+        (_gen_bboxb, 1.2), (_gen_perimeter, 1.2), (_gen_rmwhere, 0.8)]
 
 
 def cases(rng, tier):
@@ -574,6 +1074,8 @@ def cases(rng, tier):
     for _ in range(nrand):
         g = rng.choices(gens, w)[0]
         out.append(g(rng))
+    if tier != 'search':
+        out += _threshold_cases(rng, tier)
     return out
 
 
@@ -582,7 +1084,7 @@ def shrink(case):
     fields = [k for k in ('data', 'labels', 'labels2') if isinstance(case.get(k), list)]
     n = int(np.prod(shape))
     for ax in range(len(shape)):
-        if shape[ax] > 1:
+        if shape[ax] > 1 and case.get('shape2', shape) == shape:
             for j in (shape[ax] - 1, 0):
                 c = dict(case)
                 ok = True
@@ -590,6 +1092,8 @@ def shrink(case):
                     B = np.delete(np.array(case[k], dtype=object).reshape(shape), j, axis=ax)
                     c[k] = B.ravel().tolist()
                     c['shape'] = list(B.shape)
+                    if 'shape2' in case:
+                        c['shape2'] = list(B.shape)
                 if case['fn'] in ('fold', 'bboxl', 'com') and case.get('labels') and max(c['labels']) < 0:
                     ok = False
                 if isinstance(case.get('rsize'), list):
